@@ -90,7 +90,7 @@ func runFees(f *hx.Flags, o *hx.Out) {
 
 func randomFeesCase(f *hx.Flags, o *hx.Out, k int, r *prng.R) {
 	thorough := f.Tier == "thorough"
-	switch r.Weighted([]int{6, 4, 10, 12, 68}) {
+	switch r.Weighted([]int{6, 4, 10, 12, 54, 12, 2}) {
 	case 0: // emit.Int / emit.Bytes
 		for i := 0; i < 4; i++ {
 			var v int64
@@ -148,8 +148,12 @@ func randomFeesCase(f *hx.Flags, o *hx.Out, k int, r *prng.R) {
 		n := r.Range(1, 20)
 		m := r.Range(1, n)
 		doVariant(o, k, r, m, pickKeys(r, n), r.Intn(7), r.Intn(7), variantMuts[r.Intn(len(variantMuts))])
-	default:
+	case 4:
 		admitCase(f, o, k, r)
+	case 5:
+		runSpecial(o, k, r, specialKinds[r.Intn(len(specialKinds))])
+	default:
+		doFeeFields(o, k, r)
 	}
 }
 
@@ -182,6 +186,8 @@ func feesCorpus() []func(o *hx.Out, k int, r *prng.R) {
 		mut := mut
 		c = append(c, func(o *hx.Out, k int, r *prng.R) { doVariant(o, k, r, 2, keyPool[:3], 0, 0, mut) })
 	}
+	c = append(c, func(o *hx.Out, k int, r *prng.R) { doFeeFields(o, k, r) })
 	c = append(c, admitCorpus()...)
+	c = append(c, specialCorpus()...)
 	return c
 }
